@@ -79,6 +79,63 @@ pub mod proofs {
         spawn_contract(true);
     }
 
+    /// index of the last recorded call with this number, or usize::MAX
+    fn last(nr_: usize) -> usize {
+        let mut i = kernel::trace_len();
+        while i > 0 {
+            i -= 1;
+            if kernel::trace(i).nr == nr_ {
+                return i;
+            }
+        }
+        usize::MAX
+    }
+
+    /// Child::wait / try_wait on the child a successful spawn returned: wait4 is asked about exactly that
+    /// pid (options 0 for wait, WNOHANG for try_wait); the result is the status the kernel stored, an error
+    /// carries wait4's errno, try_wait gives None iff wait4 returned 0; once a status was obtained it is
+    /// returned again without another system call.
+    #[kani::proof]
+    #[kani::unwind(20)]
+    pub fn c13_wait_reports_the_status() {
+        kernel::reset();
+        kernel::set_mode(kernel::MODE_FDS | kernel::MODE_PROC | kernel::MODE_SMALL_OR_ERR);
+        kernel::set_call_budget(16);
+        let mut c = Command::new(bin()).unwrap();
+        let r = c.spawn();
+        if kernel::role_is_child() {
+            return;
+        }
+        let Ok(mut child) = r else { return };
+        let fork_at = first(nr::FORK);
+        assert!(fork_at != usize::MAX, "a_child_exists");
+        let pid = kernel::trace(fork_at).ret;
+        assert!(child.get_pid() as usize == pid, "child_handle_names_the_forked_pid");
+        let use_try: bool = kani::any();
+        let before = kernel::count_nr(nr::WAIT4);
+        let got: Result<Option<i32>, tiny_std::Error> = if use_try { child.try_wait() } else { child.wait().map(Some) };
+        assert!(kernel::count_nr(nr::WAIT4) == before + 1, "one_wait4_per_wait");
+        let w = kernel::trace(last(nr::WAIT4));
+        assert!(w.args[0] as i32 == pid as i32, "wait4_names_the_child");
+        assert!(w.args[2] == if use_try { 1 } else { 0 }, "WNOHANG_exactly_for_try_wait");
+        if kernel::is_err(w.ret) {
+            match &got {
+                Err(tiny_std::Error::Os { code, .. }) => assert!(code.raw() == (0isize - w.ret as isize) as i32, "wait_error_carries_wait4s_errno"),
+                _ => assert!(false, "wait_error_carries_wait4s_errno"),
+            }
+        } else if w.ret == 0 && use_try {
+            assert!(matches!(&got, Ok(None)), "try_wait_none_iff_nothing_to_report");
+        } else if w.ret != 0 {
+            assert!(matches!(&got, Ok(Some(s)) if *s == kernel::last_wstatus()), "wait_returns_the_status_the_kernel_stored");
+            // a second call answers from the stored status
+            let again = if kani::any() { child.try_wait() } else { child.wait().map(Some) };
+            assert!(kernel::count_nr(nr::WAIT4) == before + 1, "no_second_wait4_after_the_status_is_known");
+            assert!(matches!(&again, Ok(Some(s)) if *s == kernel::last_wstatus()), "stored_status_returned_again");
+        }
+        kani::cover!(matches!(&got, Ok(Some(_))), "a status is reported");
+        kani::cover!(matches!(&got, Ok(None)), "try_wait reports nothing yet");
+    }
+
     fn spawn_contract(full: bool) {
         kernel::reset();
         kernel::set_mode(kernel::MODE_FDS | kernel::MODE_PROC | kernel::MODE_SMALL_OR_ERR);
